@@ -390,6 +390,48 @@ def install(eng):
 
     eng.method_models[(dict, "get")] = Model("dict.get", dict_get)
 
+    def dict_items(eng, st, args, kw):
+        """items() of a dict literal of concrete shape whose keys / values may be symbolic"""
+        d = args[0]
+        if not isinstance(d, dict):
+            raise Unsupported("dict.items on a non-concrete dict")
+        yield st, [(k, v) for k, v in d.items()]
+
+    eng.method_models[(dict, "items")] = Model("dict.items", dict_items)
+
+    # compiled regular expressions applied to a string of at most one character (how the reader classifies the
+    # character under its cursor): the set of single characters the *live* pattern matches is computed by running it
+    # over every code point (and the empty string) - exact for such arguments; the argument's length is an obligation
+    import re as _re
+
+    def re_match_one_char(eng, st, args, kw):
+        pat, s = args[0], args[1]
+        if isinstance(pat, SV):
+            ok_, obj_ = eng.unlift_const(pat.t)
+            pat = obj_ if ok_ else pat
+        if not isinstance(pat, _re.Pattern) or len(args) != 2:
+            raise Unsupported("regex match with a symbolic pattern / extra arguments")
+        if not isinstance(s, SV):
+            yield st, pat.match(s)
+            return
+        yes, no, empty = _single_char_matches(pat)
+        t = s.t
+        # "at most one character": a pack may supply its own predicate for it (avoids string-length arithmetic)
+        pred = getattr(eng, "single_char_pred", None)
+        short = pred(t) if pred is not None else z3.And(V.is_str(t), z3.Length(V.Val.s(t)) <= 1)
+        eng.oblige(st, f"the string matched against {pat.pattern!r} has at most one character (the single-character regex model is exact)", short, "model-pre")
+        st.assume(V.is_str(t), short)
+        sv = V.Val.s(t)
+        is_empty = sv == z3.StringVal("")
+        if yes is not None:
+            one = z3.Or(*[sv == z3.StringVal(c) for c in yes]) if yes else z3.BoolVal(False)
+        else:
+            one = z3.And(z3.Not(is_empty), *[sv != z3.StringVal(c) for c in no])
+        cond = z3.Or(one, z3.And(is_empty, z3.BoolVal(empty)))
+        yield st, SV(z3.If(cond, V.mk_bool(True), V.VNone))  # only the truth value of the match object is modelled
+
+    eng.method_models[(_re.Pattern, "match")] = Model("re.Pattern.match (single character)", re_match_one_char)
+
     def _all_any(is_all):
         def fn(eng, st, args, kw):
             from .engine import lib_to_iter
@@ -421,6 +463,29 @@ def install(eng):
     eng.method_models[(list, "__len__")] = Model("list.__len__", list_len)
     eng.method_models[(list, "append")] = Model("list.append", list_append)
     eng.method_models[(list, "pop")] = Model("list.pop", list_pop)
+
+
+_SINGLE_CHAR_CACHE: dict = {}
+
+
+def _single_char_matches(pat):
+    """(matching chars | None, non-matching chars | None, matches the empty string) for a compiled pattern applied with
+    .match to strings of length <= 1; whichever of the two sets is small is returned."""
+    key = (pat.pattern, pat.flags)
+    if key not in _SINGLE_CHAR_CACHE:
+        import sys as _sys
+
+        yes = [chr(c) for c in range(_sys.maxunicode + 1) if not (0xD800 <= c <= 0xDFFF) and pat.match(chr(c)) is not None]
+        total = _sys.maxunicode + 1 - 0x800
+        if len(yes) <= 256:
+            res = (yes, None, pat.match("") is not None)
+        elif total - len(yes) <= 256:
+            ys = set(yes)
+            res = (None, [chr(c) for c in range(_sys.maxunicode + 1) if not (0xD800 <= c <= 0xDFFF) and chr(c) not in ys], pat.match("") is not None)
+        else:
+            raise Unsupported(f"regex {pat.pattern!r}: neither the matching nor the non-matching single characters are few")
+        _SINGLE_CHAR_CACHE[key] = res
+    return _SINGLE_CHAR_CACHE[key]
 
 
 def trunc_real(q):
